@@ -9,5 +9,5 @@ CONSTANTS
   BinFull = TRUE
 INIT Init
 NEXT Next
-INVARIANTS BinInv
+INVARIANTS BinInv WalkInv
 CHECK_DEADLOCK FALSE
